@@ -25,7 +25,7 @@ pub const META_C16: Meta = Meta {
 pub const META_C17: Meta = Meta {
     id: "C17",
     level: "exploration",
-    rule: "Cases: Accept-Encoding from the C16 generators (and absent, and arbitrary bytes) x gzip level 0..=9 x chunk size {1,16,4096} x method {GET, HEAD, POST} x request given as Request and as Parts x small payloads of four classes. Oracle: Vary lists accept-encoding; Content-Encoding: gzip present iff should_gzip(headers) and level > 0 (the crate's own function, and on grammatical values also the C16 reference); no other Content-Encoding; after writing and dropping the writer the body is one gzip member decoding to the payload iff the header says gzip, otherwise the payload verbatim; Request and Parts agree; every non-HEAD method gets a writer. Non-trivial = weighted Accept-Encoding, or level 0 with gzip preferred; distinct by fingerprint of case.",
+    rule: "Cases: Accept-Encoding from the C16 generators (and absent, and arbitrary bytes) x gzip level 0..=9 x chunk size {1,16,4096} x method {GET, HEAD, POST} x request given as Request and as Parts x builder call histories (earlier with_gzip_level calls overridden by the last one, with_chunk_size before or after) x small payloads of four classes. Oracle: Vary lists accept-encoding; Content-Encoding: gzip present iff should_gzip(headers) and level > 0 (the crate's own function, and on grammatical values also the C16 reference); no other Content-Encoding; after writing and dropping the writer the body is one gzip member decoding to the payload iff the header says gzip, otherwise the payload verbatim; Request and Parts agree; every non-HEAD method gets a writer. Non-trivial = weighted Accept-Encoding, or level 0 with gzip preferred; distinct by fingerprint of case.",
     assumptions: &["gzip level within the documented 0..=9"],
 };
 
@@ -305,6 +305,12 @@ pub struct Case17 {
     pub method: String,
     pub payload: crate::props::stream::Payload,
     pub payload_len: u32,
+    /// earlier `with_gzip_level` calls on the same builder, overridden by `level` (the last call)
+    #[serde(default)]
+    pub earlier_levels: Vec<u32>,
+    /// call `with_chunk_size` before (false) or after (true) the level calls
+    #[serde(default)]
+    pub chunk_last: bool,
 }
 
 struct Built {
@@ -327,7 +333,18 @@ fn build17(c: &Case17, as_parts: bool, payload: &[u8]) -> Result<Built, String> 
         } else {
             http_serve::streaming_body(&req)
         };
-        let (resp, w) = builder.with_chunk_size(c.chunk).with_gzip_level(c.level).build::<Bytes, HarnessError>();
+        let mut builder = builder;
+        if !c.chunk_last {
+            builder = builder.with_chunk_size(c.chunk);
+        }
+        for l in &c.earlier_levels {
+            builder = builder.with_gzip_level(*l);
+        }
+        builder = builder.with_gzip_level(c.level);
+        if c.chunk_last {
+            builder = builder.with_chunk_size(c.chunk);
+        }
+        let (resp, w) = builder.build::<Bytes, HarnessError>();
         let head = RespHead::of(&resp);
         let has_writer = w.is_some();
         if let Some(mut w) = w {
@@ -447,14 +464,18 @@ fn c17_strategy() -> BoxedStrategy<Case17> {
         proptest::sample::select(&["GET", "HEAD", "POST"][..]),
         crate::props::stream::payload_strategy(),
         prop_oneof![3 => 0u32..40, 2 => 40u32..3000],
+        prop_oneof![3 => Just(vec![]), 2 => vec(0u32..=9, 1..=2)],
+        any::<bool>(),
     )
-        .prop_map(|(accept_encoding, level, chunk, method, payload, payload_len)| Case17 {
+        .prop_map(|(accept_encoding, level, chunk, method, payload, payload_len, earlier_levels, chunk_last)| Case17 {
             accept_encoding,
             level,
             chunk,
             method: method.to_string(),
             payload,
             payload_len,
+            earlier_levels,
+            chunk_last,
         })
         .boxed()
 }
@@ -476,8 +497,17 @@ pub fn run_c17(cx: &Cx) -> Acc {
                         method: method.into(),
                         payload: crate::props::stream::Payload::Mixed,
                         payload_len: 700,
+                        earlier_levels: vec![],
+                        chunk_last: false,
                     };
                     acc.run_case(cx, "enumerated", &c, |acc| check_c17(&c, acc));
+                    // the level set last wins: every earlier level, both call orders
+                    if chunk == 16 && method != "POST" {
+                        for earlier in 0..=9u32 {
+                            let c2 = Case17 { earlier_levels: vec![earlier], chunk_last: earlier % 2 == 0, ..c.clone() };
+                            acc.run_case(cx, "enumerated", &c2, |acc| check_c17(&c2, acc));
+                        }
+                    }
                 }
             }
         }
